@@ -259,6 +259,9 @@ class C15(Check):
             for v in o.violations:
                 if v.key.startswith("e2fsck|"):
                     v.key += "|ea_inode"
+        if spec["full"]:
+            for v in o.violations:
+                v.key += "|full"
         if placements & {"block", "ea_inode"}:
             o.distinct.add("%s|%d|%d|%s" % (feats, bs, cfg["inode_size"], "+".join(sorted(placements))))
         for p in placements:
